@@ -1,5 +1,6 @@
 import GrmVerif.Extracted
 import GrmVerif.Model.Recover
+import GrmVerif.Model.RankImpl
 import GrmVerif.Drive.C08
 import GrmVerif.Drive.C01
 /-!
@@ -8,7 +9,8 @@ Driver for C05, C06, C07 (error recovery). Request:
 `len tok… kind` and, when `kind = 1`, `hasValue [tree] nerr (laidx state nseq (len (op arg)…)…)…`
 (`op` 0 insert t / 1 delete idx / 2 shift idx; trees as in C08). `which` selects the verdicts:
 5 = C05 (every sequence repairs; the parse is the plain parse of the edited input),
-6 = C06 (the reported set is the reference minimum-cost set, ranked as documented),
+6 = C06 (the reported set is the reference minimum-cost set, ranked as documented; the reported list
+    is a fixed point of the model of `simplify_repairs`, `RankImpl.simplify`),
 7 = C07 (progress and shape of the error list).
 -/
 namespace GrmVerif.Drive.C05
@@ -71,6 +73,18 @@ def toRepair (x : Nat × Nat) : Repair :=
   | 0 => .insert x.2
   | 1 => .delete
   | _ => .shift
+
+/-- a reported repair with the lexeme it names (`lrpar::ParseRepair`) -/
+def toPRepair (x : Nat × Nat) : RankImpl.PRepair :=
+  match x.1 with
+  | 0 => .insert x.2
+  | 1 => .delete x.2
+  | _ => .shift x.2
+
+def prepStr : RankImpl.PRepair → String
+  | .insert t => s!"I{t}"
+  | .delete l => s!"D{l}"
+  | .shift l => s!"S{l}"
 
 /-- the lexemes named by the Delete/Shift entries of a reported sequence are the input lexemes from
 the error position onwards, in order -/
@@ -203,6 +217,15 @@ partial def judge (X : Ctx) (which : Nat) (k : Nat) (i : Inp) : List String :=
             (if nodup then [] else [s!"V fail repair-reported-twice input={k} w={w} error={n}"]) ++
             (if noEof then [] else [s!"V fail eof-inserted input={k} w={w} error={n}"]) ++
             (if sorted then [] else [s!"V fail repairs-not-ranked-as-documented input={k} w={w} error={n} keys={keys}"])
+          -- the model of `simplify_repairs` on the reported list: stripping, deduplicating and sorting a
+          -- list that `simplify_repairs` produced gives it back in the same order (`C06.simplify_fixed_point`);
+          -- lexeme `i` of the harness' lexer starts at byte `stride * i + 1`
+          let reported := e.seqs.map (fun s => s.map toPRepair)
+          let resimplified := RankImpl.simplify RankImpl.dedup X.avoid (fun i => X.stride * i + 1) reported
+          let fixedPoint :=
+            (if reported.length ≥ 2 then ["C errors_with_several_sequences_resimplified 1"] else []) ++
+            (if resimplified == reported then [] else
+              [s!"V fail reported-list-is-not-what-simplify_repairs-makes-of-it input={k} w={w} error={n} at={e.laidx} reported={reported.map (·.map prepStr)} model={resimplified.map (·.map prepStr)}"])
           let refv := if c0 > X.cap then ["C errors_above_the_cost_cap 1"] else
             "C errors_decided_by_the_reference 1" ::
             match refRepairs X.G X.A w X.cost N_SHIFTS GrmVerif.Extracted.TRY_PARSE_AT_MOST start c0 with
@@ -214,7 +237,7 @@ partial def judge (X : Ctx) (which : Nat) (k : Nat) (i : Inp) : List String :=
                 let extra := seqs.filter (fun r => !rs.contains r)
                 (if missing.isEmpty then [] else [s!"V fail minimum-cost-repair-not-reported input={k} w={w} error={n} at={e.laidx} cost={c0} missing={(missing.headD []).map repStr}"]) ++
                 (if extra.isEmpty then [] else [s!"V fail reported-repair-not-in-reference-set input={k} w={w} error={n} at={e.laidx} cost={c0} extra={(extra.headD []).map repStr}"])
-          acc ++ basic ++ refv
+          acc ++ basic ++ fixedPoint ++ refv
         -- next edited input: the first sequence applied
         match seqs with
         | [] => acc
@@ -226,7 +249,65 @@ partial def judge (X : Ctx) (which : Nat) (k : Nat) (i : Inp) : List String :=
         if which == 5 then acc ++ [s!"V fail error-{n}-reported-but-the-edited-input-parses input={k} w={w} at={e.laidx}"] else acc
       | _ => acc
   let E0 := (List.range w.length).map EItem.real
-  v7 ++ (if which == 7 then [] else go E0 i.errs [] 0)
+  -- The driver's OWN semantics on state stacks: parse the real input until the table refuses a lexeme
+  -- (the reductions made under that lexeme are kept), check the reported error is there, check every
+  -- reported sequence from THAT stack, apply the first one, go on. On a table without conflicts this
+  -- coincides with the plain parse of the edited input (the strict reading `go`); on a table with
+  -- conflicts the kept reductions can make the two differ (known finding), and then this reading decides.
+  let rec advance (c : Pos) (steps : Nat) : Option (Bool × Pos) :=   -- (accepted?, configuration)
+    match steps with
+    | 0 => none
+    | steps + 1 =>
+      match feed X.G X.A (nextTok X.G w c.pos) FUEL c.stack with
+      | .shifted s => if c.pos < w.length then advance ⟨s, c.pos + 1⟩ steps else none
+      | .accept s => some (true, ⟨s, c.pos⟩)
+      | .error s => some (false, ⟨s, c.pos⟩)
+      | _ => none
+  let rec realWalk (c : Pos) (errs : List ErrD) (n : Nat) (budget : Nat) : List String :=
+    match budget with
+    | 0 => []
+    | budget + 1 =>
+    match advance c (w.length + 2) with
+    | none => [s!"V fail own-semantics: the driver model crashes or spins input={k} w={w}"]
+    | some (true, _) =>
+      if errs.isEmpty then (if i.tree.isSome then [] else [s!"V fail own-semantics: accepted but no value reported input={k} w={w}"])
+      else [s!"V fail own-semantics: error {n} reported but the driver's own run accepts input={k} w={w}"]
+    | some (false, ce) =>
+      match errs with
+      | [] =>
+        if i.errs.all (fun e => !e.seqs.isEmpty) then
+          [s!"V fail own-semantics: a further error at {ce.pos} is not reported input={k} w={w}"] else []
+      | e :: rest =>
+        if ce.pos != e.laidx || ce.stack.headD 0 != e.state then
+          [s!"V fail own-semantics: error {n} reported at {e.laidx},{e.state} but the driver's own run stops at {ce.pos},{ce.stack.headD 0} input={k} w={w}"]
+        else
+          let seqs := e.seqs.map (fun s => s.map toRepair)
+          let bad := seqs.filterMap (fun s =>
+            if validSeq X.G X.A w N_SHIFTS ce s then none
+            else some s!"V fail own-semantics: repair-does-not-repair input={k} w={w} error={n} at={e.laidx} seq={s.map repStr}")
+          if !bad.isEmpty then bad else
+          match seqs with
+          | [] => []
+          | s0 :: _ =>
+            match applySeq X.G X.A w ce s0 with
+            | none => [s!"V fail own-semantics: first sequence does not apply input={k} w={w} error={n}"]
+            | some c' => realWalk c' rest (n + 1) budget
+  let hasConflicts := !X.A.sr.isEmpty || !X.A.rr.isEmpty || C01.precResolved X.G X.A
+  let strict := if which == 7 then [] else go E0 i.errs [] 0
+  let relaxed :=
+    if which != 5 || !hasConflicts || strict.all (fun l => l.startsWith "C ") then strict
+    else
+      let own := realWalk ⟨[X.A.start], 0⟩ i.errs 0 (w.length + 3)
+      if !own.isEmpty then own
+      else
+        -- the strict reading fails only because of reductions kept on a table with conflicts
+        strict.map (fun l =>
+          if l.startsWith "V fail " && !(((l.splitOn " ").getD 2 "").endsWith "-conflicting-grammar") then
+            match l.splitOn " " with
+            | v :: fl :: label :: tl => " ".intercalate (v :: fl :: (label ++ "-on-a-table-with-conflicts-conflicting-grammar") :: tl)
+            | _ => l
+          else l)
+  v7 ++ relaxed
 
 def handle (args : List Nat) : String :=
   match parseGrammar args with
